@@ -229,4 +229,4 @@ package parser
 //@   ensures [C09:error-returns-input] result1 != nil ==> result0 == dsl
 
 //@ func WriteCodeToFile
-//@   requires codeMap == codeMap
+//@   loop 0 iteration-ensures [C16:write-iteration] nfs() == 3 && fskind(0) == "mkdir" && fskind(1) == "create" && fspath(1) == path + "/" + name && fskind(2) == "filewrite" && fspath(2) == path + "/" + name && fsdata(2) == bytestr(datas)
